@@ -472,6 +472,17 @@ class RealSeq:
                     seq.add_dmm_detuning(waveform=make_wf(op["wf"]), dmm_name=real_name(op["ch"]), protocol=op["proto"])
                 elif k == "adddmm":
                     seq.add_dmm_detuning(make_wf(op["wf"]), real_name(op["ch"]), op["proto"])
+                # (`pos`: optional arguments given positionally)
+                elif k == "delay" and op.get("pos"):
+                    seq.delay(op["d"], real_name(op["ch"]), op.get("at_rest", False))
+                elif k == "addeom" and op.get("pos"):
+                    seq.add_eom_pulse(real_name(op["ch"]), op["dur"], op["phase"], op.get("post", 0.0), op["proto"],
+                                      op.get("corr", False))
+                elif k == "eomon" and op.get("pos"):
+                    seq.enable_eom_mode(real_name(op["ch"]), op["amp"], op["det_on"], op.get("optimal", 0.0),
+                                        op.get("corr", False))
+                elif k == "eomoff" and op.get("pos"):
+                    seq.disable_eom_mode(real_name(op["ch"]), op.get("corr", False))
                 elif k == "delay" and op.get("kw"):
                     seq.delay(duration=op["d"], channel=real_name(op["ch"]), at_rest=op.get("at_rest", False))
                 elif k == "addeom":
